@@ -71,7 +71,8 @@ Record facts := mkFacts {
   f_inner : list (string * string);  (* _run_mp: try around the future loop *)
   f_outer : list (string * string);  (* _run_mp: try around the pool block *)
   f_fin_res : bool;           (* results_thread.stop() in _run_mp's finally *)
-  f_fin_info : bool }.        (* info_thread.stop()    in _run_mp's finally *)
+  f_fin_info : bool;          (* info_thread.stop()    in _run_mp's finally *)
+  f_fin_free : bool }.        (* the finally first force-frees the store lock *)
 
 (* class leaving _run_mp for an exception raised by future.result() /
    by executor.submit() on a broken pool *)
@@ -125,6 +126,7 @@ Inductive mpc :=
 | MPurgeAcq | MPurgeIn              (* _purge_results *)
 | MKill                             (* _ensure_worker_processes_killed *)
 | MExitPool (oe : option exc)       (* executor.__exit__: shutdown(wait) *)
+| MFreeStore (oe : option exc)      (* finally: acquire(timeout) ; release() *)
 | MUnproxyAcq | MUnproxyIn          (* rs.unproxy_results() *)
 | MExitMgr (oe : option exc)        (* manager shutdown *)
 | MReturn | MRaised (e : exc).
@@ -190,6 +192,9 @@ Definition wholds (x : wst) : bool :=
 (* SIGTERM / SIGKILL / os._exit: the process is gone, its lock is not *)
 Definition kill (x : wst) : wst :=
   match x with WDead h => WDead h | other => WDead (wholds other) end.
+(* the lock a dead process owned has been taken away from it *)
+Definition unhold (x : wst) : wst :=
+  match x with WDead _ => WDead false | other => other end.
 
 Definition isSome {A} (o : option A) : bool :=
   match o with Some _ => true | None => false end.
@@ -283,7 +288,21 @@ Definition step_main (f : facts) (c : cfg) (s : state) : option state :=
                    (MExitPool None))
   | MExitPool oe =>
       if all_lt (c_workers c) (fun w => is_dead (s_ws s w))
-      then Some (set_pc s (fin_entry f oe)) else None
+      then Some (set_pc s (if f_fin_free f then MFreeStore oe
+                           else fin_entry f oe))
+      else None
+  | MFreeStore oe =>
+      (* `if not LOCK.acquire(timeout=1): warn` then an unconditional
+         LOCK.release(): a semaphore may be released by anybody.  The live
+         threads of this process hold the lock for far less than the
+         timeout, so the acquire only times out on an owner that is gone:
+         wait for a live holder, take the lock away from anyone else *)
+      match s_store s with
+      | Some OInfo | Some OMain | Some ORes => None
+      | _ => Some (set_pc (set_ws (set_store s None)
+                                  (fun w => unhold (s_ws s w)))
+                          (fin_entry f oe))
+      end
   | MUnproxyAcq =>
       match s_store s with
       | None => Some (set_pc (set_store s (Some OMain)) MUnproxyIn)
@@ -520,9 +539,11 @@ Fixpoint exec_table_ok (seen_ude : bool) (hs : list (string * string)) : bool :=
                 && exec_table_ok seen_ude rest
   end.
 
-(* _run_mp: exactly one handler, BrokenProcessPool -> FileSearchException *)
+(* _run_mp: a try statement catches nothing, or exactly BrokenProcessPool
+   (mapping it to FileSearchException): every other class passes unchanged *)
 Definition pool_table_ok (hs : list (string * string)) : bool :=
   match hs with
+  | [] => true
   | [(h, r)] => String.eqb h E_BPP && String.eqb r E_FSE
   | _ => false
   end.
@@ -613,11 +634,44 @@ Fixpoint finally_calls (depth : nat) (infin : bool) (sk : list ev)
 Definition mem_str (x : string) (l : list string) : bool :=
   existsb (String.eqb x) l.
 
+(* calls in the finally part of the depth-1 try that are executed
+   unconditionally (inside no `if`) *)
+Fixpoint finally_uncond (depth ifd : nat) (infin : bool) (sk : list ev)
+  : list string :=
+  match sk with
+  | [] => []
+  | TryB :: r => finally_uncond (S depth) ifd infin r
+  | TryE :: r =>
+      finally_uncond (pred depth) ifd
+                     (if Nat.eqb depth 1 then false else infin) r
+  | FinallyB :: r =>
+      finally_uncond depth ifd (if Nat.eqb depth 1 then true else infin) r
+  | IfB :: r => finally_uncond depth (S ifd) infin r
+  | IfE :: r => finally_uncond depth (pred ifd) infin r
+  | (LoopB | LoopE) :: r => finally_uncond depth ifd infin r
+  | Call g :: r =>
+      if infin && Nat.eqb ifd 0 then g :: finally_uncond depth ifd infin r
+      else finally_uncond depth ifd infin r
+  | _ :: r => finally_uncond depth ifd infin r
+  end.
+
+Fixpoint is_subseq (xs l : list string) : bool :=
+  match xs, l with
+  | [], _ => true
+  | _, [] => false
+  | x :: xs', y :: l' =>
+      if String.eqb x y then is_subseq xs' l' else is_subseq xs l'
+  end.
+
 Definition facts_of (sk_execute sk_run_mp : list ev) : facts :=
   let fin := finally_calls 0 false sk_run_mp in
+  let unc := finally_uncond 0 0 false sk_run_mp in
   mkFacts (handlers_at 1 0 sk_execute)
           (handlers_at 2 0 sk_run_mp) (handlers_at 1 0 sk_run_mp)
-          (mem_str "results_stop" fin) (mem_str "info_stop" fin).
+          (mem_str "results_stop" fin) (mem_str "info_stop" fin)
+          (* the forced release comes first: before both stop() calls *)
+          (is_subseq ["store_lock_force_release"; "results_stop"]%string unc
+           && is_subseq ["store_lock_force_release"; "info_stop"]%string unc).
 
 (* the future loop sits in the body of the depth-2 try, the submit loop in
    the body of the depth-1 try only (so [f_inner] applies to the former and
@@ -625,6 +679,7 @@ Definition facts_of (sk_execute sk_run_mp : list ev) : facts :=
 Definition future_loop_in_inner_try (sk : list ev) : bool :=
   match call_regions "future_result" [] sk with
   | [[RgBody; RgBody]] => true
+  | [[RgBody]] => Nat.eqb (length (handlers_at 2 0 sk)) 0  (* no inner try *)
   | _ => false
   end.
 Definition submit_in_outer_try_only (sk : list ev) : bool :=
@@ -633,30 +688,30 @@ Definition submit_in_outer_try_only (sk : list ev) : bool :=
   | _ => false
   end.
 
-(* `purge` is called only in normal flow (in no handler / finally region),
-   after the try statement that waits for the futures has been closed *)
+(* `purge` is called only in normal flow (in no handler / finally region)
+   and only after the loop that waits for the futures *)
 Definition rg_bad (r : region) : bool :=
   match r with RgHandler | RgFinally => true | _ => false end.
-Fixpoint purge_guarded (stack : list region) (sawfut closedfut : bool)
+Fixpoint purge_guarded (stack : list region) (sawfut : bool)
          (sk : list ev) : bool * bool (* (ok, seen) *) :=
   match sk with
   | [] => (true, false)
-  | TryB :: r => purge_guarded (RgBody :: stack) sawfut closedfut r
-  | Handler _ :: r => purge_guarded (RgHandler :: tl stack) sawfut closedfut r
-  | TryElse :: r => purge_guarded (RgElse :: tl stack) sawfut closedfut r
-  | FinallyB :: r => purge_guarded (RgFinally :: tl stack) sawfut closedfut r
-  | TryE :: r => purge_guarded (tl stack) sawfut (closedfut || sawfut) r
+  | TryB :: r => purge_guarded (RgBody :: stack) sawfut r
+  | Handler _ :: r => purge_guarded (RgHandler :: tl stack) sawfut r
+  | TryElse :: r => purge_guarded (RgElse :: tl stack) sawfut r
+  | FinallyB :: r => purge_guarded (RgFinally :: tl stack) sawfut r
+  | TryE :: r => purge_guarded (tl stack) sawfut r
   | Call g :: r =>
-      if String.eqb g "future_result" then purge_guarded stack true closedfut r
+      if String.eqb g "future_result" then purge_guarded stack true r
       else
-        let '(ok, seen) := purge_guarded stack sawfut closedfut r in
+        let '(ok, seen) := purge_guarded stack sawfut r in
         if String.eqb g "purge"
-        then (ok && closedfut && negb (existsb rg_bad stack), true)
+        then (ok && sawfut && negb (existsb rg_bad stack), true)
         else (ok, seen)
-  | _ :: r => purge_guarded stack sawfut closedfut r
+  | _ :: r => purge_guarded stack sawfut r
   end.
 Definition purge_only_after_futures (sk : list ev) : bool :=
-  let '(ok, seen) := purge_guarded [] false false sk in ok && seen.
+  let '(ok, seen) := purge_guarded [] false sk in ok && seen.
 
 (* the given calls occur exactly once each and in this order, and the
    function has no exception handler of its own *)
@@ -665,13 +720,6 @@ Fixpoint calls_of (sk : list ev) : list string :=
   | [] => []
   | Call g :: r => g :: calls_of r
   | _ :: r => calls_of r
-  end.
-Fixpoint is_subseq (xs l : list string) : bool :=
-  match xs, l with
-  | [], _ => true
-  | _, [] => false
-  | x :: xs', y :: l' =>
-      if String.eqb x y then is_subseq xs' l' else is_subseq xs l'
   end.
 Definition count_str (x : string) (l : list string) : nat :=
   length (filter (String.eqb x) l).
